@@ -72,12 +72,17 @@ def register(reg):
                         z3.And(z3.Length(r) > 0, z3.PrefixOf(r, L0), N1 == N0, z3.Concat(r, L1) == L0),
                     ),
                 ),
+                ("then_live", ("C17",), z3.Implies(z3.Length(L0) == 0, z3.And(L1 == L0, z3.Concat(r, N1) == N0))),
+            ]
+
+        def checks(self, c):
+            s, L0, L1, N0, N1 = parts(c)
+            return [
                 (
                     "leading_first_no_network_op",
                     ("C17",),
                     z3.Implies(z3.Length(L0) > 0, z3.BoolVal(len(c.events("net.read")) == 0)),
-                ),
-                ("then_live", ("C17",), z3.Implies(z3.Length(L0) == 0, z3.And(L1 == L0, z3.Concat(r, N1) == N0))),
+                )
             ]
 
         def exc_ensures(self, c, exc):
@@ -108,9 +113,11 @@ def register(reg):
             w1 = c.new(s, "NS.written").t
             return [
                 ("write_through", ("C17",), w1 == z3.Concat(w0, c.args["buffer"].t)),
-                ("one_write", ("C17",), z3.BoolVal(len(c.events("net.write")) == 1)),
                 ("leading_untouched", ("C17",), c.new(c.self, "US._leading_data").t == c.old(c.self, "US._leading_data").t),
             ]
+
+        def checks(self, c):
+            return [("one_write", ("C17",), z3.BoolVal(len(c.events("net.write")) == 1))]
 
         def callsite(self, c, ev):
             if ev.name == "net.write":
@@ -138,7 +145,7 @@ def register(reg):
         raises = NET_CONNECT_RAISES + ["Cancelled"]
         raises_props = ("C17",)
 
-        def ensures(self, c):
+        def checks(self, c):
             evs = c.events("net.start_tls")
             return [
                 ("delegates_once", ("C17", "C10"), z3.BoolVal(len(evs) == 1)),
